@@ -101,6 +101,12 @@ CHECKS = {
             "The design is explored for all interleavings of 5 connections over 3 reusable slots; on the code every request of dozens of concurrent connections (keep-alive and "
             "multiplexed) must carry exactly its own connection's three values, and any foreign value is attributed to the connection it belongs to.",
             "Single peer address (loopback); schedules are random (seeded), not TLC-generated."),
+    'C13': ("H2Conn.tla (reaction table of processFrame and callees in code order; handler legality, GOAWAY coverage, no start after a connection error) checked by TLC; "
+            "a seeded sample of the live graph edges covered by paths replayed with a raw-frame client over TLS (PING/ACK barrier per frame, gated backend as handler completion)",
+            "TLC explores all frame sequences to the depth bound over a rich alphabet; on the real server every replayed step's reactions (RST_STREAM code, GOAWAY code, SETTINGS ack, "
+            "response, handler start) must equal the specification's modulo the latitude RFC 9113 gives; unexpected handler starts are checked at the end of every path.",
+            "The permitted set is the tabulated reaction plus two latitude rules, not an independent RFC transcription; reset-in-flight states and steps inside an open header block "
+            "that do not end in GOAWAY are not observable with a barrier and are cut."),
 }
 
 NOT_YET = {}
